@@ -274,10 +274,14 @@ PROPS = {
               "model (plus a bookkeeping sweep over n_cw <= 72, every pattern length <= 12 dividing it and every number of kept blocks) and up to 24 recorded LLR vectors per configuration judged: length n_cw, exact zeros exactly at the punctured positions, the signs complete to "
               "a codeword of H (punctured bits solved by enumeration) and equal the sign pattern of the generic chain model for that codeword; noise: BPSK at 12 / "
               "15 dB with and without puncturing, >= 1.6e5 (1.6e6) noise samples recovered from the LLRs with the MODEL's sigma: mean, variance, lag-1 correlation "
-              "within 6 standard errors of 0, sigma^2, 0; non-trivial = a configuration with puncturing or interleaving; distinct = distinct configuration"),
+              "within 6 standard errors of 0, sigma^2, 0; LLR scale: for every chain configuration (BPSK and 8PSK) the first LLR vector at 60 dB is compared value by value "
+              "(4 %) with the noiseless chain model evaluated with sigma = sqrt(0.5 / (rate_after_puncturing * bits_per_symbol * Eb/N0)) (a 0.5 dB error in sigma^2 is "
+              "detected); AWGN channel directly: AwgnChannel::add_noise on 2e5 (2e6) complex and real non-zero symbols for sigma in {0.05, 0.7, 3}: mean, variance, "
+              "lag-1 covariance, 4th central moment (3 sigma^4) of Re, Im and the real channel, Re/Im covariance, Im(j)/Re(j+1) covariance, all within 6 standard "
+              "errors; non-trivial = a configuration with puncturing or interleaving; distinct = distinct configuration"),
         assumptions=COMMON_ASSUME,
-        partial=["noise distribution: only mean / variance / lag-1 autocorrelation of BPSK noise are measured (8PSK noise and I/Q cross-correlation are not); "
-                 "Gaussianity and independence are not established by any theorem", "IEEE rounding"],
+        partial=["noise distribution: Gaussianity and independence are statistical observations (moments up to order 4, lag-1 and Re/Im covariances within 6 s.e.), "
+                 "not established by any theorem; rand_distr::Normal and the ChaCha generator are trusted", "IEEE rounding"],
     ),
     "C13": dict(
         level="proof",
